@@ -15,7 +15,8 @@ Inductive sout := SOk | SErr | SPark (n : N).          (* scripted modulator out
 Inductive action :=
 | AFrames (c : conn) (es : list ev)      (* bytes written by the client: EIdentify / EReq events in frame order *)
 | AHangup (c : conn)                     (* the client closes its end *)
-| ARelease (n : N) (ok : bool).          (* the parked modulator call n is answered *)
+| ARelease (n : N) (ok : bool)           (* the parked modulator call n is answered *)
+| AExpire (c : conn) (id : N).           (* request_timeout of the request with this id on connection c expires *)
 
 Record xop := {
   x_acts : list action;
@@ -148,7 +149,7 @@ Inductive choice :=
                                     request's future and the cancellation in random order), then dropped *)
 
 Definition act_conn (a : action) : option conn :=
-  match a with AFrames c _ => Some c | AHangup c => Some c | ARelease _ _ => None end.
+  match a with AFrames c _ => Some c | AHangup c => Some c | ARelease _ _ => None | AExpire _ _ => None end.
 
 (* an action is eligible when no earlier pending action concerns the same connection *)
 Fixpoint eligible_acts (i : nat) (seen : list conn) (l : list action) : list choice :=
@@ -167,6 +168,22 @@ Fixpoint hanging (seen : list conn) (l : list action) : list conn :=
   | AHangup c :: r => (if mem c seen then [] else [c]) ++ hanging (c :: seen) r
   | AFrames c _ :: r => hanging (c :: seen) r
   | ARelease _ _ :: r => hanging seen r
+  | AExpire _ _ :: r => hanging seen r
+  end.
+
+Definition req_id (p : pc) : N :=
+  match p with
+  | PStart (RJoin _ _ id) | PStart (RLeave _ _ id) | PStart (RBcast _ _ id) | PStart (RMembers _ id) | PStart (RChannels id)
+  | PStart (RSetAcl _ _ _ _ id) | PStart (RGetAcl _ _ id)
+  | PJoinWait _ _ _ id | PJoinNotify _ _ _ _ id | PLeaveWait _ _ _ id | PLeaveN1 _ _ _ _ id | PLeaveN2 _ _ _ id
+  | PBcastGate _ _ id | PBcastWait _ _ _ id | PMembersWait _ _ id | PSetAclWait _ _ _ _ _ id | PGetAclWait _ _ _ id => id
+  | PDone => 0
+  end.
+(* the live request of connection c that bears this id (ids are unique per connection in the generated histories) *)
+Definition task_of_req (s : cstate) (c : conn) (id : N) : option tid :=
+  match filter (fun e => match t_conn (snd e) with Some c' => (c' =? c) && (req_id (t_pc (snd e)) =? id) | None => false end) (tasks s) with
+  | e :: _ => Some (fst e)
+  | [] => None
   end.
 
 Definition runnable (g : gst) (p : pc) : bool :=
@@ -221,6 +238,12 @@ Definition apply_choice (cf : ccfg) (gone : list conn) (hs : list N) (st : xst) 
           match plookup n (parked st0) with
           | Some t => [{| xs := xs st0; parked := filter (fun e => negb (fst e =? n)) (parked st0); answered := answered st0 ++ [(t, ok)];
                           closing := closing st0; pending := pending st0; script := script st0; got := got st0; gotmod := gotmod st0 |}]
+          | None => [st0]
+          end
+      | Some (AExpire c id) =>
+          match task_of_req (xs st0) c id with
+          | Some t => [apply_events cf gone {| xs := xs st0; parked := parked st0; answered := filter (fun e => negb (fst e =? t)) (answered st0);
+                                                closing := closing st0; pending := pending st0; script := script st0; got := got st0; gotmod := gotmod st0 |} [EDrop t]]
           | None => [st0]
           end
       | None => []
